@@ -198,6 +198,11 @@ type probeProvider struct {
 	mu       sync.Mutex
 	held     map[uintptr]int
 	acquired int64
+
+	// onFirst runs once, after the first ammo arrived and before any ammo is handed to an instance
+	// (providers that load their ammo inside Run have nothing to dump before that).
+	first   sync.Once
+	onFirst func()
 }
 
 func newProbeProvider(inner core.Provider, v *violations) *probeProvider {
@@ -217,7 +222,19 @@ func ammoPtr(a core.Ammo) (uintptr, bool) {
 }
 
 func (p *probeProvider) Acquire() (core.Ammo, bool) {
-	a, ok := p.inner.Acquire()
+	var a core.Ammo
+	var ok bool
+	got := false
+	p.first.Do(func() {
+		a, ok = p.inner.Acquire()
+		got = true
+		if p.onFirst != nil {
+			p.onFirst()
+		}
+	})
+	if !got {
+		a, ok = p.inner.Acquire()
+	}
 	if ok {
 		if ptr, isPtr := ammoPtr(a); isPtr {
 			p.mu.Lock()
